@@ -48,7 +48,7 @@ def cases(tier, seed):
                         cs.append({'kind': 'sweep', 'K': K, 'd': d, 'r': r, 'g': g, 'style': st,
                                    'pos': ['first', 'middle', 'before_flatten', 'residual'][(K + r + g + d) % 4],
                                    'seed': seed * 7919 + len(cs)})
-    n = 600 if tier == 'quick' else 8000
+    n = 600 if tier == 'quick' else 16000
     modes = ['allpruned', 'adversarial', 'zeros-neg', 'huge', 'normal', 'adversarial', 'mixed']
     for i in range(n):
         cs.append({'kind': 'random', 'prog_seed': seed * 1000003 + 900000 + i,
